@@ -11,9 +11,22 @@ impl InstructionGenerator {
         expr_pos: ExpressionPos,
         target_type: ExpressionType,
     ) {
+        self.generate_expression_instructions_casting_optionally_by_ref(
+            expr_pos,
+            target_type,
+            true,
+        );
+    }
+
+    pub fn generate_expression_instructions_casting_optionally_by_ref(
+        &mut self,
+        expr_pos: ExpressionPos,
+        target_type: ExpressionType,
+        consume_var_path: bool,
+    ) {
         let expression_type = expr_pos.expression_type();
         let pos = expr_pos.pos();
-        self.generate_expression_instructions(expr_pos);
+        self.generate_expression_instructions_optionally_by_ref(expr_pos, consume_var_path);
         if expression_type != target_type {
             match target_type {
                 ExpressionType::BuiltIn(q) => {
